@@ -54,6 +54,28 @@ def _strategy(draw):
     state_mode = draw(st.integers(0, 3)) == 0
     if state_mode:
         big = True
+    # a sixth of the pairs: a high-turnout bootstrap election in which no outstanding unit has counted more than its
+    # baseline yet; the perturbed below-threshold unit then jumps to 40x (its own clip bounds may move, nobody else's)
+    surge_mode = (not state_mode) and draw(st.integers(0, 4)) == 0
+    if surge_mode:
+        case = draw(
+            gen.election_case(
+                estimators=("bootstrap",),
+                min_nonrep=4,
+                slack=(0, 10),
+                outliers=(False,),
+                statuses=(gen.N, gen.N, gen.N0, gen.A, gen.B, gen.Z),
+                turnout_surge=(0.33,),
+                max_other=12,
+                Bs=(20, 40),
+            )
+        )
+        if "unit" not in case["req"]["aggregates"]:
+            case["req"]["aggregates"] = case["req"]["aggregates"] + ["unit"]
+        ids = [u["id"] for u in case["units"] if u["status"] == gen.N and u["feed"] is not None and u["feed"]["rd"] + u["feed"]["rg"] > 0]
+        if ids:
+            case["perturb"] = {"kind": "below_threshold", "id": ids[draw(st.integers(0, len(ids) - 1))], "repl": "x40"}
+            return case
     case = draw(
         gen.election_case(
             min_nonrep=2,
